@@ -35,6 +35,7 @@
 import JV.Proofs.Patch
 import JV.Proofs.PatchUndoD
 import JV.Proofs.PatchUndoF
+import JV.Proofs.PatchSpecC
 namespace JV.Props.C15
 open JV Model Model.Patch Model.Pointer
 open JV.Model.JsonPath (UK UKList UKMembers)
@@ -129,6 +130,31 @@ theorem apply_atomic_sorted_values (d p : JVal) (hd : d.WF) (hp : PatchValuesWF 
 theorem apply_atomic_sorted (d p : JVal) (hd : d.WF) (hp : p.WF) :
     (applyPatch false d p).1 ≠ none → (applyPatch false d p).2 = d :=
   apply_atomic_sorted_values d p hd (patchValuesWF_of_wf hp)
+
+/-! ### RFC 6902 CONFORMANCE: a run that commits has computed what the RFC prescribes -/
+
+/-- PER OPERATION: an operation object that `apply_patch` performs successfully on a `jsoncons::json`
+    document is a well-formed RFC 6902 operation (`Rfc6902.decode` accepts it, with the same reference
+    tokens) and the document afterwards is exactly the one `Rfc6902.applyOp` prescribes — for all six
+    operations, including `definite_path`'s resolution of a trailing `-` and the insert-else-replace
+    fallback (RFC 6902 §4.1: `add` to an existing member replaces it). -/
+theorem apply_op_refines_spec (t operation : JVal) (ht : t.WF) (h : (applyOp false t operation).1 = none) :
+    (Spec.Rfc6902.decode operation).bind (Spec.Rfc6902.applyOp t) = some (applyOp false t operation).2.1 :=
+  applyOp_refines t operation ht h
+
+/-- RFC 6902 CONFORMANCE for `jsoncons::json` (sorted objects): whenever `apply_patch` reports no error,
+    the document it leaves is exactly the one the RFC 6902 reference computes — for every patch, under the
+    representation invariant of the type for the document and for the values carried by the patch. -/
+theorem apply_refines_spec_values (d p : JVal) (hd : d.WF) (hp : PatchValuesWF p)
+    (h : (applyPatch false d p).1 = none) :
+    Spec.Rfc6902.applyPatch d p = some (applyPatch false d p).2 := by
+  cases p with
+  | arr ops => exact applyLoop_refines ops d [] hd hp h
+  | _ => simp [applyPatch] at h
+
+theorem apply_refines_spec (d p : JVal) (hd : d.WF) (hp : p.WF) (h : (applyPatch false d p).1 = none) :
+    Spec.Rfc6902.applyPatch d p = some (applyPatch false d p).2 :=
+  apply_refines_spec_values d p hd (patchValuesWF_of_wf hp) h
 
 /-- no operation of the patch is `remove` or `move` (decidable) -/
 def patchNoRemoval : JVal → Bool
